@@ -955,7 +955,15 @@ fn exec_call(c: &CallSpec, obs: &mut Obs) -> Result<(), Fail> {
             roll,
             counts,
         } => {
-            let cal = build_cal(cal)?;
+            // a calendar name the constructor refuses gives no date arithmetic to sweep
+            // (whether the refusal is right is C06's business, not this property's)
+            let cal = match build_cal(cal) {
+                Ok(c) => c,
+                Err(_) => {
+                    obs.count("skipped.calendar_not_constructible");
+                    return Ok(());
+                }
+            };
             let d = ts_to_ndt(*date);
             let m = modifier_of(*modifier);
             let r = match roll {
